@@ -38,6 +38,42 @@ def issueOf (a : Agent) : Ev → Option (Nat × Nat × Nat)
     else none
   | _ => none
 
+/-- the entries a step from `a` to `a'` appends to the ghost log of issued nominations (`Agent.nomIssued`) -/
+def logSfx (a a' : Agent) : List (Nat × Nat × Nat) := a'.nomIssued.drop a.nomIssued.length
+
+/-- **The nominations an agent issues while it executes an event**, whoever causes them: `RenominateCandidate` that is not
+refused (`issueOf`, proved below to be this list for a `.renominate` event) AND the automatic check of the controlling
+selector (`WithAutomaticRenomination`) inside the timer ticks the event runs — `(value, local address, remote address)`,
+value 0 = sent without the attribute.  Read off the ghost log `nomIssued`, which `step` appends to exactly where it hands
+a nomination to `sendRequest`. -/
+def issuesOf (a : Agent) (e : Ev) : List (Nat × Nat × Nat) := logSfx a (step a e).1
+
+theorem logSfx_self (a : Agent) : logSfx a a = [] := by
+  unfold logSfx; simp
+
+theorem logSfx_of_append {a a' : Agent} {s : List (Nat × Nat × Nat)} (h : a'.nomIssued = a.nomIssued ++ s) :
+    logSfx a a' = s := by
+  unfold logSfx; rw [h]; simp
+
+theorem logSfx_of_eq {a a' : Agent} (h : a'.nomIssued = a.nomIssued) : logSfx a a' = [] := by
+  unfold logSfx; rw [h]; simp
+
+/-- suffixes compose -/
+theorem logSfx_trans {a b c : Agent} (h1 : a.nomIssued <+: b.nomIssued) (h2 : b.nomIssued <+: c.nomIssued) :
+    logSfx a c = logSfx a b ++ logSfx b c := by
+  obtain ⟨s1, e1⟩ := h1
+  obtain ⟨s2, e2⟩ := h2
+  rw [logSfx_of_append e1.symm, logSfx_of_append e2.symm,
+    logSfx_of_append (s := s1 ++ s2) (by rw [← e2, ← e1, List.append_assoc])]
+
+theorem mem_logSfx_right {a b c : Agent} (h1 : a.nomIssued <+: b.nomIssued) (h2 : b.nomIssued <+: c.nomIssued)
+    {x : Nat × Nat × Nat} (hx : x ∈ logSfx b c) : x ∈ logSfx a c := by
+  rw [logSfx_trans h1 h2]; exact List.mem_append_right _ hx
+
+theorem mem_logSfx_left {a b c : Agent} (h1 : a.nomIssued <+: b.nomIssued) (h2 : b.nomIssued <+: c.nomIssued)
+    {x : Nat × Nat × Nat} (hx : x ∈ logSfx a b) : x ∈ logSfx a c := by
+  rw [logSfx_trans h1 h2]; exact List.mem_append_left _ hx
+
 /-- The event is an authenticated Binding success response that completes an outstanding transaction of `a` on a
 listed pair: open started agent, existing local candidate, MESSAGE-INTEGRITY under the remote password, known source,
 transaction pending and not expired, response symmetric (network type, destination, source — `responseSymmetric`),
@@ -96,7 +132,9 @@ with id `ex` (to which the selection may have moved) and by the transaction of t
 * the selection is the same, or it is `ex`;
 * every listed pair other than `ex` stems from a pair of the same id with the same `nk`, or is new (id above the old
   counter) and unmarked; no pair is dropped; an id that resolved to an address pair resolves to the same addresses;
-* every outstanding transaction was outstanding before, or carries no nomination value, or is the one of `iss`. -/
+* every outstanding transaction was outstanding before, or carries no nomination value, or is the one of `iss`
+  (`RenominateCandidate`), or is logged among the nominations issued meanwhile (`logSfx`: the automatic check);
+* the ghost log of issued nominations only grows. -/
 structure NomQ (ex : Option Nat) (iss : Option (Nat × Nat × Nat)) (a a' : Agent) : Prop where
   npid : a.nextPairID ≤ a'.nextPairID
   sel : a'.selected = a.selected ∨ (a'.selected = ex ∧ ex.isSome = true)
@@ -104,6 +142,8 @@ structure NomQ (ex : Option Nat) (iss : Option (Nat × Nat × Nat)) (a a' : Agen
     (∃ p ∈ a.checklist, p.id = p'.id ∧ nk p' = nk p) ∨ (a.nextPairID < p'.id ∧ nk p' = (false, false, none))
   fwd : ∀ p ∈ a.checklist, ∃ p' ∈ a'.checklist, p'.id = p.id
   addrs : ∀ id x, pairAddrs a id = some x → pairAddrs a' id = some x
-  pend : ∀ pd ∈ a'.pending, pd ∈ a.pending ∨ pd.nom = none ∨ ∃ v, pd.nom = some v ∧ iss = some (v, pd.src, pd.dest)
+  pend : ∀ pd ∈ a'.pending, pd ∈ a.pending ∨ pd.nom = none ∨
+    ∃ v, pd.nom = some v ∧ (iss = some (v, pd.src, pd.dest) ∨ (v, pd.src, pd.dest) ∈ logSfx a a')
+  log : a.nomIssued <+: a'.nomIssued
 
 end IceProofs.C20S
